@@ -124,6 +124,17 @@ def case(ctx, i, rec):
         inv = np.empty(ts.num_nodes, dtype=int)
         return max(common.rel_err(x.times[idx], y.times[idy]), common.rel_err(x.node_mn[idx], y.node_mn[idy]))
 
+    if kw["probability_space"] == "linear" and pairs.linear_underflow(a, b, c, d, e, g):
+        # cells in the subnormal range: the linear-space result is no longer determined to 1e-9 by the
+        # model (the logarithmic run of the same inputs agrees to 1e-16); counted, and the same six
+        # inputs are judged in logarithmic space instead
+        rec.count("pairs_in_linear_underflow_domain(judged_in_log_space)")
+        kw = dict(kw, probability_space="logarithmic")
+        a, c, d, b, e, g = [pairs.run(x, "inside_outside", kw) for x in (ts, ts_c, ts_d, ts_b, ts_e, ts_g)]
+        for name, o in (("a", a), ("c", c), ("d", d), ("b", b), ("e", e), ("g", g)):
+            if o.exc is not None:
+                rec.violation("renumbered-run-raised", f"input ({name}) raised {common.exc_key(o.exc)} in logarithmic space")
+                return
     d_cd = dev(c, id_c, d, id_d)
     rec.maxi("dev_between_two_numberings_with_oldest_root_last", d_cd)
     rec.count("pairs_oldest_root_last_in_both")
